@@ -13,7 +13,7 @@ from .c11 import EXPRS
 
 ID = "C14"
 LEVEL = "exploration"
-BUDGET = {"quick": 480, "thorough": 8000}
+BUDGET = {"quick": 480, "thorough": 48000}
 TECHNIQUE = "stateful model-based testing (Hypothesis RuleBasedStateMachine) with an in-memory content model; every kind-sequence of length <= 2 enumerated explicitly; histories saved as JSON and replayed without Hypothesis"
 RULE = ("Hypothesis rule-based state machine over a pool of plotfiles: initialize = generated 3D plotfile (1-3 levels, "
         "any layout, non-zero origin, anisotropic, special floats); rules = colander(src, vars, limit), chef(src, "
